@@ -261,3 +261,23 @@ def mentions(t, needle) -> bool:
     if isinstance(t, tuple):
         return any(mentions(x, needle) for x in t)
     return False
+
+
+def carries(t, obj) -> bool:
+    """Does the value ``t`` hold a reference to ``obj`` (itself, an attribute chain of it, or a container
+    display holding one)?  Results of calls that merely received ``obj`` as an argument do not count."""
+    t = freeze(t)
+    if t == obj:
+        return True
+    if isinstance(t, tuple) and t:
+        if t[0] == 'attr':
+            return carries(t[1], obj)
+        if t[0] in ('list', 'tuple', 'set'):
+            return any(carries(x, obj) for x in t[1:])
+        if t[0] == 'dict':
+            return any(carries(x, obj) for it in t[1:] for x in (it[1:] if it and it[0] == 'dstar' else it))
+        if t[0] in ('star', 'withas'):
+            return carries(t[1], obj)
+        if t[0] == 'phi':
+            return carries(t[3], obj)
+    return False
